@@ -332,7 +332,7 @@ def groups_of(sc, tier):
         yield ('%s|%s*%s' % (sc.key, ma, mb), texts)
 
 
-def check(v, tier):
+def check(v, tier, only=None):
     binary = xp.build_xp()
     groups = []
     for sc in scenarios(tier):
@@ -345,11 +345,14 @@ def check(v, tier):
                     uniq.append(t)
             if len(uniq) >= 2:
                 groups.append((gk, uniq))
+    if only:
+        groups = [g for g in groups if 'C14|' + g[0] == only]
     guard(len({g for g, _ in groups}) == len(groups), 'duplicate group keys')
     flat = [t for _, ts in groups for t in ts]
     res = xp.expand_all(binary, flat)
     from .. import realmacro
-    realmacro.conformance(v, binary, flat, res)
+    if not only:
+        realmacro.conformance(v, binary, flat, res)
     k = 0
     nontriv = 0
     for gk, texts in groups:
@@ -382,9 +385,9 @@ def check(v, tier):
             v.violation(case, 'a spelling of the same request %s' % bad[1])
     v.cov['distinct_nontrivial'] = nontriv
     v.notes['groups'] = len(groups)
-    for gk, texts in groups[::max(1, len(groups) // 6)][:6]:
+    for gk, texts in (groups[::max(1, len(groups) // 6)][:6] if groups else []):
         v.sample({'group': gk, 'spellings': texts[:4]})
-    guard(len(groups) > 300, 'too few spelling groups')
+    guard(only or len(groups) > 300, 'too few spelling groups')
     return v.finish('spelling groups: for every scenario (trait x shape {named/tuple generic struct, generic enum, union} x position {type, variant, first/last field} '
                     'x parameter set) each parameter over all documented spellings (p = v, p(v), string-literal forms, name/rename, expression/expr, '
                     'ignore / ignore = true / ignore(true), absent vs explicit default), Trait = X shorthands, all parameter orders (unsafe / the Into type '
